@@ -53,12 +53,12 @@ theorem nil_element_rejected_stream (env : Env) (hwf : WFEnv env) (fuel : Nat) (
 /-- a union whose number of set members is not exactly one is rejected by both serialisers. -/
 theorem union_arity_rejected (env : Env) (hwf : WFEnv env) (fuel : Nat) (n : String) (sd : StructDef)
     (gs : List GVal) (ws : List (UInt16 × WValue)) (hfind : env.find n = some sd)
-    (hk : sd.kind.arity = some true) (hws : toWireFields (toWire env fuel) sd.fields gs = .ok ws)
-    (hne : ws.length ≠ 1) :
+    (hk : sd.kind.arity = some true) (hnonempty : sd.fields.isEmpty = false)
+    (hws : toWireFields (toWire env fuel) sd.fields gs = .ok ws) (hne : ws.length ≠ 1) :
     toWire env (fuel + 1) (.struct n) (.struct gs) = .error .bad ∧
     encodeS env (fuel + 1) (.struct n) (.struct gs) = .error .bad := by
   have h1 : toWire env (fuel + 1) (.struct n) (.struct gs) = .error .bad := by
-    simp [toWire, Ty.root, hfind, hws, arityOk, hk, hne]
+    simp [toWire, Ty.root, hfind, hws, arityOkS, hnonempty, arityOk, hk, hne]
   exact ⟨h1, by rw [encodeS_eq_toWire env hwf, h1]; rfl⟩
 
 /-- accessors: an unset optional field reads as its declared default, else the zero value;
